@@ -4,7 +4,7 @@
 # Uses /tmp/vbench (copy of /verif) and /tmp/mutrepo (worktree of /repo HEAD with the patch applied).
 set -e
 PATCH=$1; shift
-BENCH=/tmp/vbench; MREPO=/tmp/mutrepo
+BENCH=${BENCH:-/tmp/vbench}; MREPO=${MREPO:-/tmp/mutrepo}
 mkdir -p $BENCH
 rsync -a --delete --exclude .git --exclude 'harness/target' --exclude 'evidence/replay' /verif/ $BENCH/ >/dev/null
 [ -d $BENCH/harness/target ] || cp -r /verif/harness/target $BENCH/harness/target
